@@ -1,4 +1,171 @@
-/-! oracle driver for the hash engine (to be written) -/
+import Spok.Hash
+import Spok.Basic.Sha256
+import Spok.Judge.Hash
+/-! # oracle driver for the hash engine (C04, C18)
+
+case lines (written by `vh-hash gen`, see harness/cmd/vh-hash/main.go):
+* `sha <hex>` — self-test of the executable SHA-256 against `crypto/sha256`; impl observation `SHA <hex digest>`;
+* `grp g=<GOMAXPROCS> c=<cpus|0> r=<repetitions> y=<seed> x=<0|1 race build> <variant>…` where a variant is
+  `<label>:<n>` followed by `n` entries `<kind>:<relative path hex>:<content hex>`; kinds `f d m l n v`
+  (regular file, directory, missing, dangling symlink, parent is a regular file, vanishes while hashed);
+  labels `base perm dirs content rename add remove diff other`, the first variant is the base.
+  impl observation: `ROOT <hex of the temp dir> ; OUT <token per variant> ; LEAK <n per variant> ; RACE 0|1 ; CALLS n`,
+  a token being the comma-separated sorted set of distinct outcomes `D:<hex digest>` / `E` (error) / `P` (panic)
+  over the repetitions. The absolute path handed to `Hash` (and hashed) is `ROOT/<relative path>`.
+
+model observation: `OUT <token per variant>` computed by `Spok.Hash.digest` with `sha := Spok.Sha256.sha256`. -/
 namespace Spok.Oracle.Hash
-def handle (line : String) : String := "TODO " ++ line
+open Spok.Hash Spok.Judge.Hash
+
+def unhexDigit? (c : Char) : Option Nat :=
+  if '0' ≤ c ∧ c ≤ '9' then some (c.toNat - 48)
+  else if 'a' ≤ c ∧ c ≤ 'f' then some (c.toNat - 87)
+  else none
+
+def unhexList : List Char → Option Bytes
+  | [] => some []
+  | a :: b :: rest => do
+    let x ← unhexDigit? a; let y ← unhexDigit? b; let r ← unhexList rest
+    pure (UInt8.ofNat (x * 16 + y) :: r)
+  | _ => none
+
+def unhex? (s : String) : Option Bytes := if s == "-" then some [] else unhexList s.toList
+
+structure EntryW where
+  kind : Kind
+  rel : Bytes
+  content : Bytes
+
+structure Variant where
+  label : String
+  entries : List EntryW
+
+def kindOf : String → Option Kind
+  | "f" => some .file | "d" => some .dir | "m" => some .missing
+  | "l" => some .dangling | "n" => some .notdir | "v" => some .vanish
+  | _ => none
+
+def parseEntry (tok : String) : Option EntryW :=
+  match tok.splitOn ":" with
+  | [k, p, c] => do
+    let k ← kindOf k; let p ← unhex? p; let c ← unhex? c
+    pure ⟨k, p, c⟩
+  | _ => none
+
+def parseVariants : Nat → List String → Option (List Variant)
+  | _, [] => some []
+  | 0, _ => none
+  | fuel + 1, hd :: rest =>
+    match hd.splitOn ":" with
+    | [label, n] => do
+      let n ← n.toNat?
+      let (es, rest') := rest.splitAt n
+      if es.length != n then none else
+      let es ← es.mapM parseEntry
+      let vs ← parseVariants fuel rest'
+      pure (⟨label, es⟩ :: vs)
+    | _ => none
+
+def relOf (i : Nat) (label : String) : Rel :=
+  if i == 0 then .base
+  else if label == "perm" || label == "dirs" then .same
+  else if label == "content" || label == "rename" || label == "add" || label == "remove" || label == "diff" then .edit
+  else .other
+
+/-- the model's view of a variant; `vanishGone` decides what a vanishing file counts as; a 0x00 byte in a relative
+    path stands for the root directory -/
+def filesOf (root : Bytes) (v : Variant) (vanishGone : Bool) : List (Path × Entry) :=
+  v.entries.map fun e =>
+    (root ++ (47 :: e.rel.flatMap fun b => if b == 0 then root else [b]),
+      match e.kind with
+      | .file => Entry.regular e.content
+      | .dir => .dir
+      | .vanish => if vanishGone then .unreadable else .regular e.content
+      | _ => .unreadable)
+
+def modelTok (root : Bytes) (v : Variant) (vanishGone : Bool) : String :=
+  match digest Spok.Sha256.sha256 (filesOf root v vanishGone) with
+  | .ok d => "D:" ++ d
+  | .error _ => "E"
+
+def hasVanish (v : Variant) : Bool := v.entries.any fun e => e.kind == .vanish
+
+def parseAtom (a : String) : Out :=
+  if a == "E" then .error
+  else if a.startsWith "D:" then .digest (a.drop 2).toString
+  else .crash
+
+def parseOutTok (t : String) : List Out := (t.splitOn ",").map parseAtom
+
+/-- the token the model prints for a variant: deterministic, except that a vanishing file may or may not have been
+    opened in time — then any non-empty subset of {digest with the file, error} the implementation showed is echoed -/
+def expectTok (root : Bytes) (v : Variant) (implTok : Option String) : String :=
+  let t0 := modelTok root v false
+  if !hasVanish v then t0 else
+  let t1 := modelTok root v true
+  if t0 == t1 then t0 else
+  let both := t0 ++ "," ++ t1
+  match implTok with
+  | some t => if t == t0 || t == t1 || t == both then t else both
+  | none => both
+
+def sect (secs : List String) (name : String) : Option String :=
+  (secs.find? (fun s => s.startsWith (name ++ " ") || s == name)).map fun s => ((s.drop (name.length)).toString.trimAscii).toString
+
+def words (s : String) : List String := (s.splitOn " ").filter (· ≠ "")
+
+def verdict : Option Bool → String
+  | none => "na" | some true => "ok" | some false => "FAIL"
+
+def zipRuns (root : Bytes) : Nat → List Variant → List String → List Nat → List Run
+  | i, v :: vs, t :: ts, l :: ls =>
+    let kinds := v.entries.map (·.kind)
+    let clean := kinds.all fun k => k == .file || k == .dir
+    let expect := if clean then (match modelTok root v false with
+      | "E" => none
+      | s => some (s.drop 2).toString) else none
+    { rel := relOf i v.label, kinds := kinds, outs := parseOutTok t, leak := l, expect := expect } :: zipRuns root (i + 1) vs ts ls
+  | _, _, _, _ => []
+
+def handleGrp (vtoks : List String) (impl : String) : String :=
+  match parseVariants (vtoks.length + 1) vtoks with
+  | none => "BAD-INPUT"
+  | some vs =>
+    let baseClean : Bool := match vs with
+      | v :: _ => v.entries.all fun e => e.kind == .file || e.kind == .dir
+      | [] => false
+    if impl == "CRASH" || impl == "HANG" then
+      -- the process died (panic in a goroutine, SIGSEGV, runtime deadlock report) or never answered
+      s!"OUT ? || C04={if baseClean then "FAIL" else "na"} C18=FAIL"
+    else
+    let secs := (impl.splitOn " ; ").map (fun x => x.trimAscii.toString)
+    let race := (sect secs "RACE") == some "1"
+    match (sect secs "ROOT").bind unhex? with
+    | none => s!"OUT ? || C04={if baseClean then "FAIL" else "na"} C18=FAIL"
+    | some root =>
+      let itoks := words ((sect secs "OUT").getD "")
+      let leaks := (words ((sect secs "LEAK").getD "")).map (fun w => w.toNat?.getD 1)
+      let paired : List (Variant × Option String) := vs.zipIdx.map fun (v, i) => (v, itoks[i]?)
+      let mtoks := paired.map fun (v, t) => expectTok root v t
+      let model := "OUT " ++ " ".intercalate mtoks
+      if itoks.length != vs.length || leaks.length != vs.length then
+        s!"{model} || C04={if baseClean then "FAIL" else "na"} C18=FAIL"
+      else
+        let runs := zipRuns root 0 vs itoks leaks
+        s!"{model} || C04={verdict (c04 runs)} C18={verdict (some (c18 runs race))}"
+
+def hexStr (bs : Bytes) : String := if bs.isEmpty then "-" else hex bs
+
+def handle (line : String) : String :=
+  match line.splitOn " | " with
+  | [inp, impl] =>
+    match words inp with
+    | ["sha", h] =>
+      (match unhex? h with
+       | some bs => s!"SHA {hexStr (Spok.Sha256.sha256 bs)} || C04=na C18=na"
+       | none => "BAD-INPUT")
+    | "grp" :: _g :: _c :: _r :: _y :: _x :: vtoks => handleGrp vtoks impl.trimAscii.toString
+    | _ => "BAD-INPUT"
+  | _ => "BAD-LINE"
+
 end Spok.Oracle.Hash
